@@ -252,7 +252,15 @@ func canonicalLiteral(l literal) bool {
 // byte positions, prefix-token count.  Returns false when the stream ends in an
 // error token (cannot happen for accepted text).
 func (a *analysis) lex() bool {
-	lx := lexer.New(token.NewScannerString("c16.lisp", string(a.src)))
+	// Small sources: a window sized to the source (cheap, identical tokens).
+	// Anything that could hold a token near the reader's fixed 128 KiB window
+	// is lexed through the very same window the reader uses, so an oversized
+	// token is split / refused here exactly as the reader does it.
+	sc := token.NewScannerString("c16.lisp", string(a.src))
+	if len(a.src) >= token.DefaultBufSize/2 {
+		sc = token.NewScanner("c16.lisp", bytes.NewReader(a.src))
+	}
+	lx := lexer.New(sc)
 	var toks []*token.Token
 	limit := len(a.src) + 16
 	for len(toks) <= limit {
